@@ -1,7 +1,7 @@
 """Flow-condition wiring of an analysis point, decided by TLC (OASWiring) on the connection table of the real Problem."""
 from . import tlc
 
-FLOW_NAMES = ["v", "alpha", "beta", "rho", "Mach_number", "re", "load_factor", "omega", "cg", "height_agl", "CT", "R", "W0", "speed_of_sound", "empty_cg"]
+FLOW_NAMES = ["v", "alpha", "beta", "rho", "Mach_number", "re", "load_factor", "omega", "cg", "height_agl", "CT", "R", "W0", "speed_of_sound", "empty_cg", "S_ref_total"]
 
 
 def table(prob, point):
